@@ -8,6 +8,7 @@
  */
 #include "allocmon.h"
 #include "vcommon.h"
+#include <pthread.h>
 
 #include "rtrlib/lib/alloc_utils_private.h"
 #include "rtrlib/pfx/pfx_private.h"
@@ -605,6 +606,8 @@ static int do_pfx_op(struct pfx_table *t, struct puni *u, struct rng *r, int *op
 
 static const char *OPN[] = {"add", "add-dup", "remove", "remove-absent", "remove-near", "src-remove"};
 
+static void ptwin_adds(struct rng *r);
+
 static void run_pfx_case(struct rng *r, long c)
 {
 	struct pfx_table t;
@@ -709,6 +712,93 @@ static void run_pfx_case(struct rng *r, long c)
 		REASON = NULL;
 		REASON_N = 0;
 	}
+	if (c % 16 == 9)
+		ptwin_adds(r);
+}
+
+/* two threads add the identical record at the same instant (see twin_adds for the router-key table): one succeeds, the
+ * other is told it is a duplicate, the table holds it once */
+struct ptwin {
+	pthread_t th;
+	struct pfx_table *t;
+	struct pfx_record rec[32];
+	int rc[32];
+};
+static volatile int PTWIN_ARRIVED[32];
+static int PTWIN_SEEN[32];
+
+static void ptwin_count(const struct pfx_record *rec, void *data)
+{
+	(void)data;
+	if (rec->asn >= 70000 && rec->asn < 70032)
+		PTWIN_SEEN[rec->asn - 70000]++;
+}
+
+static void *ptwin_main(void *arg)
+{
+	struct ptwin *w = arg;
+
+	for (int i = 0; i < 32; i++) {
+		__atomic_add_fetch(&PTWIN_ARRIVED[i], 1, __ATOMIC_SEQ_CST);
+		while (__atomic_load_n(&PTWIN_ARRIVED[i], __ATOMIC_SEQ_CST) < 2)
+			;
+		w->rc[i] = pfx_table_add(w->t, &w->rec[i]);
+	}
+	return NULL;
+}
+
+static void ptwin_adds(struct rng *r)
+{
+	struct pfx_table t;
+	struct ptwin w[2];
+	char key[128];
+
+	memset(w, 0, sizeof(w));
+	memset((void *)PTWIN_ARRIVED, 0, sizeof(PTWIN_ARRIVED));
+	memset(PTWIN_SEEN, 0, sizeof(PTWIN_SEEN));
+	pfx_table_init(&t, NULL);
+	for (int i = 0; i < 32; i++) {
+		struct pfx_record rec;
+		bool v6 = rndp(r, 1, 3);
+
+		memset(&rec, 0, sizeof(rec));
+		rec.asn = 70000 + (uint32_t)i;
+		rec.socket = &SRC[0];
+		/* a few prefixes only, so that most records share a node with others */
+		if (v6) {
+			rec.prefix.ver = LRTR_IPV6;
+			rec.prefix.u.addr6.addr[0] = 0x20010db8;
+			rec.prefix.u.addr6.addr[1] = rndn(r, 3) << 16;
+			rec.min_len = 48;
+			rec.max_len = (uint8_t)(48 + rndn(r, 16));
+		} else {
+			rec.prefix.ver = LRTR_IPV4;
+			rec.prefix.u.addr4.addr = 0x0a000000u | (rndn(r, 3) << 16);
+			rec.min_len = 16;
+			rec.max_len = (uint8_t)(16 + rndn(r, 9));
+		}
+		w[0].rec[i] = w[1].rec[i] = rec;
+	}
+	for (int k = 0; k < 2; k++) {
+		w[k].t = &t;
+		pthread_create(&w[k].th, NULL, ptwin_main, &w[k]);
+	}
+	for (int k = 0; k < 2; k++)
+		pthread_join(w[k].th, NULL);
+	pfx_table_for_each_ipv4_record(&t, ptwin_count, NULL);
+	pfx_table_for_each_ipv6_record(&t, ptwin_count, NULL);
+	for (int i = 0; i < 32; i++) {
+		int ok = (w[0].rc[i] == PFX_SUCCESS) + (w[1].rc[i] == PFX_SUCCESS);
+		int dup = (w[0].rc[i] == PFX_DUPLICATE_RECORD) + (w[1].rc[i] == PFX_DUPLICATE_RECORD);
+
+		CNT("c02/identical_records_added_by_two_threads_at_once");
+		if (ok != 1 || dup != 1 || PTWIN_SEEN[i] != 1) {
+			snprintf(key, sizeof(key), "C02:simultaneous-identical-adds:%d-succeeded-%d-stored", ok, PTWIN_SEEN[i]);
+			viol("C02", key, "two threads added the identical record at the same time: return codes %d and %d, the table enumerates it %d times", w[0].rc[i], w[1].rc[i],
+			     PTWIN_SEEN[i]);
+		}
+	}
+	pfx_table_free(&t);
 }
 
 /* large realistic table */
@@ -1043,6 +1133,78 @@ static int kmodel_find(const struct mkey *k)
 	return -1;
 }
 
+/* The table takes its own lock around every operation, so its set semantics have to hold for operations issued at the
+ * same time as well: two threads add the byte-identical key at the same instant (released together from a spin
+ * barrier); exactly one of them may succeed and the table must hold the key once. */
+struct twin {
+	pthread_t th;
+	struct spki_table *t;
+	struct spki_record rec[32];
+	int rc[32];
+	int id;
+};
+static volatile int TWIN_GO[32];
+static volatile int TWIN_ARRIVED[32];
+
+static void *twin_main(void *arg)
+{
+	struct twin *w = arg;
+
+	for (int i = 0; i < 32; i++) {
+		__atomic_add_fetch(&TWIN_ARRIVED[i], 1, __ATOMIC_SEQ_CST);
+		while (__atomic_load_n(&TWIN_ARRIVED[i], __ATOMIC_SEQ_CST) < 2)
+			;
+		w->rc[i] = spki_table_add_entry(w->t, &w->rec[i]);
+	}
+	return NULL;
+}
+
+static void twin_adds(struct rng *r)
+{
+	struct spki_table t;
+	struct twin w[2];
+	char key[128];
+
+	memset(w, 0, sizeof(w));
+	memset((void *)TWIN_ARRIVED, 0, sizeof(TWIN_ARRIVED));
+	spki_table_init(&t, NULL);
+	for (int i = 0; i < 32; i++) {
+		struct mkey m;
+
+		gen_key(r, &m, 4000);
+		m.asn = 70000 + (uint32_t)i; /* 32 different keys */
+		for (int k = 0; k < 2; k++) {
+			memset(&w[k].rec[i], 0, sizeof(w[k].rec[i]));
+			w[k].rec[i].asn = m.asn;
+			memcpy(w[k].rec[i].ski, m.ski, SKI_SIZE);
+			memcpy(w[k].rec[i].spki, m.spki, SPKI_SIZE);
+			w[k].rec[i].socket = &SRC[0];
+		}
+	}
+	for (int k = 0; k < 2; k++) {
+		w[k].t = &t;
+		w[k].id = k;
+		pthread_create(&w[k].th, NULL, twin_main, &w[k]);
+	}
+	for (int k = 0; k < 2; k++)
+		pthread_join(w[k].th, NULL);
+	for (int i = 0; i < 32; i++) {
+		struct spki_record *res = NULL;
+		unsigned int n = 0;
+		int ok = (w[0].rc[i] == SPKI_SUCCESS) + (w[1].rc[i] == SPKI_SUCCESS);
+		int dup = (w[0].rc[i] == SPKI_DUPLICATE_RECORD) + (w[1].rc[i] == SPKI_DUPLICATE_RECORD);
+
+		CNT("c10/identical_keys_added_by_two_threads_at_once");
+		spki_table_get_all(&t, w[0].rec[i].asn, w[0].rec[i].ski, &res, &n);
+		if (ok != 1 || dup != 1 || n != 1) {
+			snprintf(key, sizeof(key), "C10:simultaneous-identical-adds:%d-succeeded-%d-stored", ok, (int)n);
+			viol("C10", key, "two threads added the identical key at the same time: return codes %d and %d, the table holds it %u times", w[0].rc[i], w[1].rc[i], n);
+		}
+		free(res);
+	}
+	spki_table_free(&t);
+}
+
 static void run_spki_case(struct rng *r, long c)
 {
 	struct spki_table t;
@@ -1304,6 +1466,8 @@ static void run_spki_case(struct rng *r, long c)
 	nontrivial_for("C10", hmix(hh, (uint64_t)peak), 1);
 	spki_table_free(&t);
 	KN = 0;
+	if (c % 4 == 1)
+		twin_adds(r);
 }
 
 /* ================================================================== C18: allocation failure enumeration */
